@@ -180,6 +180,16 @@ def h_grouped(ctx):
     # every bottom member inside ONE top member is sufficient: then the answer must be positive
     suff = And_([Or_([inc.wild_subset(bv, bm, tv, tm) for tv, tm in tp]) for bv, bm in bp])
     ctx.claim("grouped-memberwise-containment-is-reported", And_(suff, Not_(got)))
+    # the answer must follow the CURRENT members: reassign the top group's members after the first query and ask again
+    if nt and side == "top":
+        nv_t, nv = spell(ctx, "z", m2i("0.0.0.255"), "wild")
+        top.items = [nv_t]
+        got2 = bot.subnet_of(top)
+        ctx.observe("got2", got2)
+        in_new = inc.wild_member(x, nv, m2i("0.0.0.255"))
+        ctx.claim("after-member-reassignment:positive-implies-containment", And_(got2, in_bot, Not_(in_new)))
+        suff2 = And_([inc.wild_subset(bv, bm, nv, m2i("0.0.0.255")) for bv, bm in bp])
+        ctx.claim("after-member-reassignment:memberwise-containment-is-reported", And_(suff2, Not_(got2)))
     return None
 
 
